@@ -235,6 +235,8 @@ def main():
     tier = a.tier if a.tier in TIERS else "quick"
     runs = a.runs or (QUICK_RUNS if tier == "quick" else THOROUGH_RUNS).get(prop, TIERS[tier]["runs"])
     budget = a.budget or TIERS[tier]["budget"]
+    if not a.budget and tier == "quick" and prop == "C08":
+        budget = 30  # C08 runs are the heaviest (every mapping law on every history); single runs can take 10 s+
     print("check %s tier=%s VERIF_SEED=%d runs<=%d budget=%ss workers=%d repo=%s" % (
         prop, tier, a.seed, runs, budget, a.workers, boot.REPO))
     t0 = time.time()
